@@ -256,13 +256,17 @@ def pipe_units(prop, san=False):
             for f in range(12):
                 us.append(U("pipe_%s_k%d_f%d" % (tier[0], k, f), "harness/c_pipeline.cpp", opt="-O0", family="pipe", shards=1, tiers=[tier],
                             flags=["-DPIPE_PROP=%d" % prop, "-DPIPE_KIND=%d" % k, "-DPIPE_FIRST=%d" % f, "-DPIPE_MAXDEPTH=%d" % depth]))
+                if tier == "thorough":   # the extended alphabet (8 more operations: roll, repeat, pad, take, broadcast_to, cumsum, multiply, matmul) at depth 2
+                    for f2 in ([f] if f < 12 else []) + ([12 + f] if f < 8 else []):
+                        us.append(U("pipe_x_k%d_f%d" % (k, f2), "harness/c_pipeline.cpp", opt="-O0", family="pipe", shards=1, tiers=["thorough"],
+                                    flags=["-DPIPE_PROP=%d" % prop, "-DPIPE_KIND=%d" % k, "-DPIPE_FIRST=%d" % f2, "-DPIPE_MAXDEPTH=2", "-DPIPE_THOROUGH_OPS"]))
                 if san and tier == "quick" and k in (3, 4):
                     us.append(U("pipe_san_k%d_f%d" % (k, f), "harness/c_pipeline.cpp", opt="-O1", san=True, family="pipe", shadow=True, shards=1, tiers=["quick", "thorough"], run_tier="quick",
                                 flags=["-DPIPE_PROP=%d" % prop, "-DPIPE_KIND=%d" % k, "-DPIPE_FIRST=%d" % f, "-DPIPE_MAXDEPTH=2"]))
     return us
 PIPE_BOUNDS = dict(quick="5 root kinds (constant shape (2,3) + fixed buffer; clipped <=(3,4); fixed dim 2; bounded dim <=3; dynamic) x their root shapes x all pipelines of depth <= 2 over 12 operations "
                          "(reshape, transpose, flip, expand_dims, slice, tile, add-with-broadcast, sum(axis) with run-time arguments; flip, expand_dims, sum, sum-keepdims with compile-time arguments) and their argument menus",
-                   thorough="same alphabet, depth <= 3, all root shapes under the bounds")
+                   thorough="same alphabet at depth <= 3, plus the extended 20-operation alphabet (adds roll, repeat, pad, take, broadcast_to, cumsum, multiply, matmul) at depth <= 2; all root shapes under the bounds")
 PIPE_ASSUME = ["argument menus contain valid arguments only (invalid ones are C15's business)", "arrays are kept below 96 elements and dim 5",
                "a stage that would yield a scalar is not a pipeline stage", "reference model nmc_ref.hpp (audited against NumPy)"]
 CHECKS["C10"] = dict(
